@@ -146,6 +146,19 @@ pub fn c08(c: &Case, second: Option<&Rec>, expect_second: bool, rep: &mut Report
         return;
     }
     let outs = outputs(end);
+    // edited module: its output must be a fixpoint too
+    if let (Some(a), Some(b)) = (end.get("out.addimp"), end.get("out.addimp-fix")) {
+        rep.count("compared-fixpoint-of-edited-output", 1);
+        if a != b {
+            let diff = describe_diff(a, b);
+            rep.violation(c, &format!("C08/fixpoint-of-edited-output/{}", diff.0), &format!("after adding named imports through the API, re-parsing the output and emitting again does not reproduce it: {}", diff.1), &[("out.addimp.wasm", a), ("out.addimp-fix.wasm", b)]);
+        }
+        if a.len() > 8 {
+            rep.nontrivial(c, "");
+        }
+        rep.held(c);
+        return;
+    }
     let base = outs.iter().find(|(l, _)| *l == "emit").map(|(_, o)| *o);
     let base = match base {
         Some(b) => b,
